@@ -279,6 +279,23 @@ pub fn chartab_line(s: &mut Session) {
     s.line(&format!("chartab\t{}", crate::wire::hex(alphabet)), &parts.join(" "));
 }
 
+
+/// counted repetitions with bounds past 255 / 256 / 1000 (number formatting in the delegated text, narrow
+/// counters in the VM), each with a text long enough to tell the counts apart; run pairwise only (shard 0)
+pub fn long_cases() -> Vec<(String, String, String)> {
+    let mut v = Vec::new();
+    for n in [255usize, 256, 260, 300, 1000] {
+        let a = "a".repeat(n);
+        v.push((format!("a{{{}}}", n), format!("(?:(?=)a){{{}}}", n), a.clone()));
+        v.push((format!("a{{{}}}", n), format!("(?:(?=)a){{{}}}", n), format!("{}a", a)));
+        v.push((format!("a{{{}}}", n), format!("(?:(?=)a){{{}}}", n), a[1..].to_string()));
+        v.push((format!("(?=)(a{{{}}})b", n), format!("(?=)((?:a(?=)){{{}}})b", n), format!("{}b", a)));
+        v.push((format!("(b{{2,{}}})(b*)", n), format!("((?:(?=)b){{2,{}}})(b*)", n), "b".repeat(n + 10)));
+        v.push((format!("(b{{{},}}?)(b*)", n), format!("((?:(?=)b){{{},}}?)(b*)", n), "b".repeat(n + 3)));
+    }
+    v
+}
+
 pub fn run(cfg: &Cfg) {
     let mut s = Session::new(&cfg.out);
     s.line(&format!("special\t{}", crate::wire::hex("\\.+*?()|[]{}^$#")), "ok");
@@ -325,6 +342,21 @@ pub fn run(cfg: &Cfg) {
             }
         }
         let _ = base;
+    }
+    if cfg.shard == 0 && cfg.space != "c07" {
+        for (p1, p2, t) in long_cases() {
+            for p in [p1, p2] {
+                let b = s.pattern(&p, &opts, true, true);
+                if b.re.is_none() {
+                    continue;
+                }
+                let a = s.caps(&b, &t, 0, false, 1_000_000);
+                if cfg.space == "c05" {
+                    check_answer_c05(&mut s, &p, &t, 0, &a);
+                }
+                s.count("long_cases");
+            }
+        }
     }
     s.finish();
 }
@@ -564,6 +596,25 @@ pub fn run_inject(cfg: &Cfg) {
                     "C03",
                     "metamorphic",
                     &[("pattern", p1.to_string()), ("pattern2", p2.to_string()), ("text", t.to_string()), ("pos", "0".to_string()), ("base", a1), ("injected", a2)],
+                );
+            }
+        }
+    }
+    if cfg.shard == 0 {
+        for (p1, p2, t) in long_cases() {
+            let b1 = s.pattern(&p1, &opts, false, true);
+            let b2 = s.pattern(&p2, &opts, false, true);
+            if b1.re.is_none() || b2.re.is_none() {
+                continue;
+            }
+            let a1 = s.caps(&b1, &t, 0, false, 1_000_000);
+            let a2 = s.caps(&b2, &t, 0, false, 1_000_000);
+            s.count("inject_cases");
+            if a1 != a2 {
+                s.violation(
+                    "C03",
+                    "metamorphic",
+                    &[("pattern", p1.clone()), ("pattern2", p2.clone()), ("text", t.clone()), ("pos", "0".to_string()), ("base", a1), ("injected", a2)],
                 );
             }
         }
